@@ -45,6 +45,12 @@ def first(t):
     return t[0]
 
 
+def mod2(x):
+    if not isinstance(x, int):
+        raise TypeError("mod2 key function is defined on ints only")
+    return "k%d" % (x % 2)
+
+
 class Universe:
     def __init__(self, name, typed, enforce, k=3):
         self.name, self.typed, self.enforce = name, typed, enforce
@@ -65,6 +71,19 @@ class Universe:
             self.keyfn, self.targs = None, (_spec_classes()["SItem"], str)
             self.wrong = [("wrong_item", "q"), ("wrong_item2", ("SOther", 9))]
             self.hashable = False
+        elif name == "mod2":
+            # ints keyed by parity: the items 0 / 2 share key 0 (a FALSY stored item), 1 / 3 share key 1
+            self.keys = ["k0", "k1"]
+            self.specs = [(kk, p) for kk in self.keys for p in (0, 1)]
+            self.keyfn, self.targs = mod2, (int, str)
+            self.wrong = [("wrong_item", "q")]
+            self.hashable = True
+        elif name == "selfmismatch":
+            # self-keyed strings declared as KeyedSet[str, int]: every item's key has the wrong type
+            self.specs = [(x, None) for x in self.keys]
+            self.keyfn, self.targs = None, (str, int)
+            self.wrong = []
+            self.hashable = True
         elif name == "ulist":
             self.specs = [(x, p) for x in self.keys for p in (0, 1)]
             self.keyfn, self.targs = first, (list, str)
@@ -76,8 +95,10 @@ class Universe:
     def fresh_pool(self):
         pool = {}
         for s in self.specs:
-            if self.name == "self":
+            if self.name in ("self", "selfmismatch"):
                 pool[s] = s[0]
+            elif self.name == "mod2":
+                pool[s] = int(s[0][1]) + 2 * s[1]
             elif self.name == "spec":
                 pool[s] = _spec_classes()["SItem"](key=s[0], value=s[1])
             elif self.name == "ulist":
@@ -95,8 +116,10 @@ class Universe:
         raise KeyError(label)
 
     def key_of(self, obj):
-        if self.name == "self":
+        if self.name in ("self", "selfmismatch"):
             return obj
+        if self.name == "mod2":
+            return "k%d" % (obj % 2)
         if self.name == "spec":
             return obj.key
         return obj[0]
@@ -147,7 +170,7 @@ def observe_impl(s, u, canon, pool):
         d["get"] = None if g is None else canon.item(g)
         try:
             d["getitem"] = canon.item(s[k])
-        except KeyError:
+        except (KeyError, TypeError):  # a miss may surface as the user key function's TypeError on a non-item
             d["getitem"] = "KeyError"
         per[repr(k)] = d
     out["per_key"] = per
@@ -357,7 +380,7 @@ def apply_model(m, op, u, pool):
         return m[k], m
     if name == "getitem_key":
         if op[1] not in m:
-            return ("raise", {"KeyError"}), None
+            return ("raise", {"KeyError", "TypeError"} if u.name == "mod2" else {"KeyError"}), None  # (a partial user key function may raise on the non-item)
         return m[op[1]], m
     if name == "get":
         return m.get(op[1]), m
@@ -365,6 +388,8 @@ def apply_model(m, op, u, pool):
         if op[1][0] == "w":
             return ("raise", {"TypeError"}), None
         o = A(op[1])
+        if u.typed and not u.conforms(o):
+            return ("raise", {"TypeError"}), None
         k = u.key_of(o)
         if u.enforce and k in m and not (m[k] == o):
             return ("raise", {"ValueError"}), None
@@ -395,6 +420,8 @@ def apply_model(m, op, u, pool):
     # binary / in-place / comparison operators
     kind, content = op[1], op[2]
     objs = [pool[(x[0], x[1])] for x in content]
+    if u.typed and any(not u.conforms(o) for o in objs):
+        return SKIP, m  # operand / result items are not admissible for this parameterisation
     bkeys = [u.key_of(o) for o in objs]
     dup_in_operand = len(set(bkeys)) != len(bkeys)
     conflict = dup_in_operand or any(k in m and not (m[k] == o) for k, o in zip(bkeys, objs))
@@ -469,7 +496,7 @@ def sig_for(u, op, kind, **kw):
     return d
 
 
-def coherent(s, u, canon):
+def coherent(s, u, canon, is_result=False):
     """weak invariant checked even in don't-care zones: one item per key, keys match items,
     typed containers hold only conforming items"""
     problems = []
@@ -481,7 +508,7 @@ def coherent(s, u, canon):
         problems.append("keys() disagrees with the items' keys")
     if len(s) != len(items):
         problems.append("len disagrees with iteration")
-    if u.typed:
+    if u.typed and not is_result:  # (whether the fresh result of a binary operator keeps the type parameters is not stated)
         for x in items:
             if not u.conforms(x):
                 problems.append(f"typed container holds non-conforming item {x!r:.40}")
@@ -502,7 +529,7 @@ def step(u, pool, canon, s, m, op, case, out):
                 out.append(violation(PROP, sig_for(u, op, "changed_on_raise", raised=got.family(), zone="dontcare"),
                                      {"before": pre["items"], "after": post["items"]}, case))
         elif hasattr(got, "keys") and hasattr(got, "enforce_item_equivalence"):
-            pr += coherent(got, u, canon)
+            pr += coherent(got, u, canon, is_result=True)
         if op[0] not in IOPS and not isinstance(got, Raised) and post != pre:
             out.append(violation(PROP, sig_for(u, op, "receiver_changed", zone="dontcare"),
                                  {"before": pre["items"], "after": post["items"]}, case))
@@ -544,7 +571,7 @@ def step(u, pool, canon, s, m, op, case, out):
             rkeys = [u.key_of(x) for x in ritems]
             bad = sorted(repr(k) for k in rkeys) != sorted(repr(k) for k in keys)
             bad_item = any(not any(x is a for a in allowed.get(k, [])) for k, x in zip(rkeys, ritems))
-            pr = coherent(got, u, canon)
+            pr = coherent(got, u, canon, is_result=True)
             robs_keys = sorted(repr(k) for k in got.keys())
             if bad or bad_item or pr or robs_keys != sorted(repr(k) for k in keys):
                 out.append(violation(PROP, sig_for(u, op, "wrong_result"),
@@ -652,7 +679,7 @@ def explore(shard):
     return C.rec
 
 
-UNIVERSES = ["self", "tuple", "spec", "ulist"]
+UNIVERSES = ["self", "tuple", "spec", "ulist", "mod2", "selfmismatch"]
 
 
 def main(run):
